@@ -27,7 +27,16 @@ ASSUMPTIONS = [
 def check(case, rec):
     from ghedesigner.borehole_heat_exchangers import SingleUTube
 
-    bhe, media = guarded(gp.build_bhe, case, what="borehole heat exchanger construction")
+    import numpy as np
+
+    try:
+        bhe, media = guarded(gp.build_bhe, case, allow=(ArithmeticError, np.linalg.LinAlgError),
+                             what="borehole heat exchanger construction")
+    except (ArithmeticError, np.linalg.LinAlgError):
+        # the ORIGINAL exchanger cannot be built (a trickle of flow in a very deep borehole makes pygfunction's network
+        # singular): there is nothing to convert, and constructibility of the original is not this property's subject
+        rec.cls("original_not_constructible(skipped)")
+        return
     p = case["pipe"]
     if p["type"] == "SINGLEUTUBE":
         eq = guarded(bhe.to_single, what="to_single")
